@@ -271,7 +271,7 @@ SAFE_BUILTINS = {
 }
 import builtins as _builtins
 SAFE_BUILTINS.update({n: v for n, v in vars(_builtins).items() if isinstance(v, type) and issubclass(v, BaseException)})
-EXT_OK = ("re", "fractions", "itertools", "collections", "numbers", "operator", "functools", "math", "warnings", "json", "errno", "textwrap", "traceback", "io", "contextlib")
+EXT_OK = ("re", "fractions", "itertools", "collections", "numbers", "operator", "functools", "math", "warnings", "json", "errno", "textwrap", "traceback", "io", "contextlib", "unicodedata", "string", "datetime", "ipaddress", "codecs")
 ERR_CLASSES = ("ValidationError", "SchemaError")
 
 HIER = {
